@@ -274,6 +274,7 @@ package redis
 
 //@ func (*decoder).decodeArray
 //@   prop C10 C11
+//@   flag bounded-recursion
 //@   requires decoderOK(d)
 //@   modifies all
 //@   ensures @ri d.br == old(d.br) && decoderOK(d)
@@ -290,6 +291,7 @@ package redis
 
 //@ func (*decoder).decodeResp
 //@   prop C10 C11
+//@   flag bounded-recursion
 //@   requires decoderOK(d)
 //@   modifies all
 //@   ensures @ri d.br == old(d.br) && decoderOK(d)
@@ -297,6 +299,7 @@ package redis
 
 //@ func (*decoder).decode
 //@   prop C10 C11
+//@   flag bounded-recursion
 //@   requires decoderOK(d)
 //@   modifies all
 //@   ensures @ri d.br == old(d.br) && decoderOK(d)
